@@ -32,6 +32,8 @@ TERMINAL = [
     {"status": 200, "ctype": J, "json": [{"kind": "temporary", "id": "looks.like.error"}]},
     {"status": 500, "ctype": J, "json": [{"kind": "permanent", "id": "node.state.invalid"}]},
     {"status": 500, "ctype": J, "json": [{"kind": "temporary", "id": P}]},
+    {"status": 500, "ctype": J, "json": [{"kind": "temporary", "id": "node.prevalidation.busy"}, {"kind": "temporary", "id": P}]},
+    {"status": 503, "ctype": J, "json": [{"kind": "temporary", "id": P}, {"kind": "temporary", "id": "failure"}]},
     {"status": 500, "ctype": "text/plain", "text": "Internal Server Error"},
     {"status": 500, "ctype": J, "text": "{not json"},
     {"status": 401, "ctype": J, "json": [{"kind": "temporary", "id": "auth"}]},
@@ -65,7 +67,9 @@ def transient(spec):
             if any(not isinstance(e.get("id", ""), str) for e in dicts):
                 return None
             if proto:
-                if len(proto) == len(dicts) and not junk and not marker:
+                # "errors are temporary and not protocol errors": a body that carries a protocol error is not such a response,
+                # wherever the protocol error stands in the list (a prevalidator marker in the same body leaves it open)
+                if not junk and not marker:
                     return False
                 return None
             temp = [e for e in dicts if e.get("kind") == "temporary"]
